@@ -38,6 +38,8 @@ pub enum TOp {
     EdgeEq { u: usize, i: usize, v: usize, j: usize },
     EdgeReverse { u: usize, i: usize },
     NodeCmp { u: usize, v: usize },
+    /// `for e in &node`
+    IterInto { u: usize },
 }
 
 #[derive(Clone, Debug, Serialize, Deserialize)]
@@ -189,6 +191,14 @@ fn exec<F: Flavour>(w: &mut World<F>, op: &TOp) -> Obs {
             Some(a) => Obs::Edges(vec![F::edge_reverse(&a)]),
             None => Obs::Unit,
         },
+        TOp::IterInto { u } => {
+            let mut v = Vec::new();
+            F::for_into(&w.nodes[*u], &mut |a, b, e| {
+                v.push((F::key(&a), F::key(&b), e.0));
+                v.len() < 10_000
+            });
+            Obs::Edges(v)
+        }
         TOp::NodeCmp { u, v } => {
             let a = &w.nodes[*u];
             let b = &w.nodes[*v];
@@ -280,7 +290,8 @@ impl Engine for Twin {
                 86..=88 => TOp::Serialise { wire },
                 89..=91 => TOp::RoundTrip { wire },
                 92..=95 => TOp::EdgeEq { u: rng.below(n), i: rng.below(3), v: rng.below(n), j: rng.below(3) },
-                96..=97 => TOp::EdgeReverse { u: rng.below(n), i: rng.below(3) },
+                96 => TOp::EdgeReverse { u: rng.below(n), i: rng.below(3) },
+                97 => TOp::IterInto { u: rng.below(n) },
                 _ => TOp::NodeCmp { u: rng.below(n), v: rng.below(n) },
             };
             ops.push(op);
@@ -366,7 +377,7 @@ impl Engine for Twin {
                     TOp::Insert { u } => *u == k,
                     TOp::Remove { k: x } | TOp::Get { k: x } | TOp::Index { k: x } | TOp::Contains { k: x } => *x == k,
                     TOp::EdgeEq { u, v, .. } | TOp::NodeCmp { u, v } => *u == k || *v == k,
-                    TOp::EdgeReverse { u, .. } => *u == k,
+                    TOp::EdgeReverse { u, .. } | TOp::IterInto { u } => *u == k,
                     _ => false,
                 });
             if !used {
